@@ -78,4 +78,31 @@ CLAIMS["C19"] = {
             "findings. Loadability of third-party dependencies is environment, not decided.",
 }
 
+CLAIMS["C10"] = {
+    "technique": "symbolic (non-executing) interpretation of the serializer into per-file write-event streams with "
+                 "polynomial sizes; parsing of the streams against the iden3 .wtns/.r1cs templates; affine agreement of "
+                 "allocator keys, wire-index map and witness slot order",
+    "text": "Decides for all traced programs and witness values: every field-size write carries a literal in [0,p), the "
+            "modulus or `e % p`; each declared section length equals, as a polynomial in P, W, K and sums over "
+            "constraints, the bytes written until the next section; declared counts (nWires, nPubOut, nConstraints, "
+            "witness count, per-LC term counts) equal what the loops write; magic/version/section ids/field size and "
+            "little-endian byte order match the format; k-th public value has key k, wire k, slot k and k-th private "
+            "value key -k, wire P+k, slot P+k.",
+    "note": "Trusted: transcription of the iden3 formats. Not decided: acceptance by snarkjs, satisfaction of the decoded "
+            "system (C01). The unreduced witness write was a genuine defect, repaired (fix: commit).",
+}
+CLAIMS["C20"] = {
+    "technique": "module-level def-use provenance of the parameter key; literal evaluation of the parameter table against "
+                 "reader index arithmetic and the curve table; polynomial normal forms for round offsets and padding; "
+                 "C06 non-interference analysis restricted to the hash modules",
+    "text": "Decides the structural clauses: the Poseidon parameter set is selected by runtime.backend_name (never the "
+            "environment or a literal default); every table entry has R_F+R_P rows of t constants below the registered "
+            "backend's prime, a t x t matrix, even R_F and gcd(a,p-1)=1; permute() runs R_F/2, R_P, R_F/2 rounds adding "
+            "rows r, R_F/2+r, R_F/2+R_P+r, with full/partial S-box layers each followed by the MDS mix; padding appends "
+            "exactly m - n mod m elements starting with the marker; both hash gadgets are data-oblivious; the subset-sum "
+            "hash uses the active backend's prime and pairs coefficient i with bit i.",
+    "note": "Not decided: equality with a reference implementation and the published test vectors (value facts over all "
+            "inputs). The environment-keyed parameter lookup was a genuine defect, repaired (fix: commit).",
+}
+
 NOT_APPLICABLE = {}
